@@ -476,3 +476,16 @@ package client
 //@ func PayloadForType
 //@   serves C15
 //@   ensures same_code: [C15] result != nil ==> PayloadType(result) == t && fresh(ival(result))
+
+// C16: the receive loop hands every decoded message to the dispatcher as an object of its own.
+// The channel holds the pointer and the dispatcher and the waiting call read the payload later,
+// from other goroutines: a message object that is sent twice (a buffer reused across iterations)
+// has its payload overwritten by the next message before the earlier one was routed.
+//@ func receiveMessages
+//@   serves C16
+//@   opt nomonitor = 1
+//@   opt partial = 1
+//@   opt trackhandover = 1
+//@   opt abstract = Message.Deserialize
+//@   loop 0 invariant receiveChannel == old(receiveChannel)
+//@   assert each_message_its_own_object at send : [C16] v != nil && !handedover(v)
